@@ -29,6 +29,11 @@ LEVEL = "exploration"
 
 PHRASES = ("this is a bug of the Erg compiler", "This may be a bug of Erg compiler")
 ANSI = re.compile(r"\x1b\[[0-9;]*m")
+# every wording the compiler has for an internal error (erg_common/error.rs ErrorCore::bug/unreachable: "This is a bug
+# of Erg"; erg_compiler/error/{mod,tycheck}.rs compiler_bug/checker_bug/stack_bug/recursion_limit: "[Tt]his is a bug of
+# the Erg compiler"; error/lower.rs type_not_found hint: "This may be a bug of Erg compiler"), matched case-insensitively
+BUG = re.compile(r"this is a bug of (the )?erg", re.I)
+MAYBE_BUG = re.compile(r"may be a bug of (the )?erg", re.I)
 FIRST_CAP_MS = 60_000      # first pass: an item running longer is set aside ...
 ALONE_CAP_MS = 900_000     # ... and re-run alone with this cap before it is called a hang
 
@@ -104,6 +109,24 @@ def g2_space(tier):
             for u in uses:
                 for a in args:
                     progs.append(P("def-use", g2.op_class(form, e, extra="+use"), g2.stmt(form, e) + "\n" + u.replace("f(", callee + "(").replace("{a}", a) + "\n"))
+    # -- E: accessors nested in accessors, and empty collection literals, over well-typed names ------
+    # (added after a seeded change was missed: the index of `xs[..]` is itself desugared and lowered, and
+    #  an empty collection is a separate arm of code generation; both need programs that pass the checker)
+    prelude = "xs = [0, 1]\nys = [1, 0]\nt = (0, 1)\nxss = [[0, 1], [1, 0]]\n"
+    nm = lambda n, k: g2.leaf(n, k)
+    xs, ys, t, xss, zero, i = nm("xs", "list"), nm("ys", "list"), nm("t", "tuple"), nm("xss", "list"), nm("0", "nat"), nm("x", "var")
+    acc = [g2.index(xs, zero), g2.tattr(t, 0), g2.index(ys, i)]                       # one accessor
+    nested = [g2.index(xs, a) for a in acc]                                            # accessor in an index
+    nested += [g2.index(xs, g2.bi("+", acc[0], zero)), g2.index(xs, g2.bi("+", acc[1], zero)), g2.index(xs, g2.call("abs", acc[0]))]
+    nested += [g2.index(g2.index(xss, zero), nm("1", "nat")), g2.tattr(g2.index(xss, zero), 1), g2.index(xss, acc[1]), g2.un("-", acc[0]), g2.bi("+", acc[0], acc[1])]
+    empties = [nm("[]", "empty-list"), nm("{}", "empty-set"), nm("()", "empty-tuple"), nm("{:}", "empty-dict"), nm("{=}", "empty-record"), nm('""', "empty-str")]
+    eforms = ["var", "print", "def1"] if quick else ["var", "print", "def1", "lambda", "block", "expr"]
+    for form in eforms:
+        for e in acc + nested:
+            progs.append(P("nested-accessor", g2.op_class(form, e, extra="+names"), prelude + g2.stmt(form, e) + "\n" + ("print! f(0)\n" if form in ("def1", "block") else "")))
+        for e in empties:
+            progs.append(P("empty-literal", f"{form}|{e.skel}", g2.stmt(form, e) + "\n"))
+            progs.append(P("empty-literal", f"{form}|len-of-{e.skel}", g2.stmt(form, g2.call("len", e)) + "\n"))
     # -- D: every ordered pair of statements (thorough) ---------------------------------------------------
     if not quick:
         stmts = []
@@ -136,7 +159,7 @@ def g2_space(tier):
 # substitution alphabet (a subset of the generator's): a literal of each of three types, an unbound
 # name, a type name, two operators and the dot
 MUT_ALPHABET = ["1", '"a"', "None", "zz", "Str", "+", "==", "."]
-QUICK_MUT_FILES = ["tests/should_ok/decl.er", "tests/should_ok/move.er", "tests/should_ok/self_reference.er", "tests/should_ok/infer_class.er"]
+QUICK_MUT_FILES = ["tests/should_ok/decl.er", "tests/should_ok/move.er", "tests/should_ok/self_reference.er"]
 THOROUGH_SUB_MAX_LINES = 6    # token substitutions for files up to this many lines; line deletions for every file
 
 
@@ -208,10 +231,10 @@ def internal_sites(r):
     for d in (r.get("errors") or []) + (r.get("warns") or []):
         text = ANSI.sub("", " ".join([d.get("msg") or ""] + (d.get("hint") or []) + (d.get("sub") or [])))
         msg = ANSI.sub("", d.get("msg") or "")
-        if d.get("kind") == "CompilerSystemError" or PHRASES[0] in text or "This is a bug of Erg" in text:
+        if d.get("kind") == "CompilerSystemError" or BUG.search(text):
             m = re.search(r"caused from: ([A-Za-z_0-9<>]+(?:::[A-Za-z_0-9<>]+)*)", text, re.I)
             out.append((f"internal-error:{m.group(1) if m else 'CompilerSystemError'}", msg[:200]))
-        elif PHRASES[1] in text:
+        elif MAYBE_BUG.search(text):
             # LowerError::type_not_found & friends: the constructor is recognisable by the message shape
             shape = re.sub(r"[?%:]*[A-Za-z_0-9]+(\.[A-Za-z_0-9]+)+|[?%][A-Za-z_0-9]+", "T", msg)
             shape = re.sub(r"\s+", " ", shape).strip()
